@@ -310,6 +310,11 @@ func runC02(c *Ctx) {
 	c.Rule("C02.7", "a synthesized request envelope's compressed flag = message was compressed AND server compression present", 1)
 	checkEnvelopeSites(c, "C02.4", "C02.6", "C02.7", true)
 
+	// ---------------------------------------------------------------- C02.8
+	c.Rule("C02.8", "content types: each target protocol writes its own wire format's Content-Type prefix; the request classifier maps each prefix to that protocol", 10)
+	checkContentTypeTables(c, "C02.8", "serverProtocolHandler", "addProtocolRequestHeaders", "requestMeta")
+	checkClassification(c, "C02.8")
+
 	// ---------------------------------------------------------------- C02.5
 	c.Rule("C02.5", "envelope flag tables equal the protocols' wire formats", 20)
 	checkFlagTables(c, "C02.5")
